@@ -146,12 +146,6 @@ func v4Gate(name string) {
 		park = true
 	case name == "raft.apply.enter" || name == "raft.apply.checked":
 		_, park = c.byGo[g]
-		if !park {
-			// a handler goroutine that has not been bound to an instance yet
-			for _, p := range c.parked {
-				_ = p
-			}
-		}
 	}
 	if !park {
 		c.mu.Unlock()
@@ -773,6 +767,11 @@ func (c *v4Cluster) step(step map[string]interface{}) (ev v4Event) {
 		p := c.instPark(in, "raft.apply.enter")
 		if p == nil {
 			return skip("not parked before the mutex")
+		}
+		for _, o := range c.insts {
+			if pc, _ := c.pcOf(o); o != in && o.at == in.at && (pc == "barrier" || pc == "checked") {
+				return skip("the node mutex is held")
+			}
 		}
 		node := c.srv[in.at].getRaft()
 		li := node.LastIndex()
